@@ -340,6 +340,48 @@ pub fn factory_flow(rng: &mut Rng, sink: &mut Sink, w: &mut World, deployer: &[u
     w.track(&out, PendK::Issue);
 }
 
+/// directed (C18): the three local steps run with DIFFERENT arguments — manager created for a minter-only request
+/// (the nominee becomes its operator), then issued and minted with a supply: the hand-over meets a nominee who already
+/// holds a role; afterwards the service must hold none and the mint step must not be repeatable
+fn factory_flow_changed_supply(rng: &mut Rng, sink: &mut Sink, w: &mut World) {
+    let salt = vec![rng.below(3) as u8 + 130; 32];
+    let d = user(1);
+    let m = user(*rng.pick(&[4u8, 2, 5]));
+    let a0 = vec![salt.clone(), b"My Token".to_vec(), b"MTK".to_vec(), vec![18], nat(0), m.clone()];
+    let a1 = vec![salt.clone(), b"My Token".to_vec(), b"MTK".to_vec(), vec![18], nat(1000), m.clone()];
+    let before_tm = w.next_tm;
+    let out = w.tx(sink, &d, "deployInterchainToken", 0, "-", &a0);
+    w.track(&out, PendK::Issue);
+    if let Some(t) = result_bytes(&out) {
+        if !w.ids.contains(&t) {
+            w.ids.push(t);
+        }
+    }
+    let out = w.tx(sink, &d, "deployInterchainToken", 50000000000000000, "-", &a1);
+    w.track(&out, PendK::Issue);
+    if let Some(i) = w.pend.iter().position(|p| p.1 == PendK::Issue && !p.2) {
+        let id = w.pend[i].0;
+        let newtok = format!("MTK-{:06x}", rng.below(0xffffff));
+        let out = sink.exec(&format!("deliver {} ok {}", id, hex::encode(newtok.as_bytes())));
+        w.pend[i].2 = true;
+        if out.starts_with("ok") && w.next_tm > 0 {
+            sink.exec(&format!("roles {} {} ESDTRoleLocalMint,ESDTRoleLocalBurn", hex::encode(tm_addr(w.next_tm - 1)), newtok));
+        }
+        sink.exec(&format!("cb {}", id));
+        w.pend.remove(i);
+    }
+    for _ in 0..2 {
+        let out = w.tx(sink, &d, "deployInterchainToken", 0, "-", &a1);
+        w.track(&out, PendK::Issue);
+    }
+    if w.next_tm > before_tm {
+        let tm = tm_addr(w.next_tm - 1);
+        let its = w.its.clone();
+        sink.exec(&format!("query {} getAccountRoles {}", hex::encode(&tm), args(&[its])));
+        sink.exec(&format!("query {} getAccountRoles {}", hex::encode(&tm), args(&[m])));
+    }
+}
+
 pub fn gen(rng: &mut Rng, n: usize, sink: &mut Sink, focus: &str) {
     while sink.count < n {
         let mut w = setup(rng, sink);
@@ -459,6 +501,10 @@ fn step(rng: &mut Rng, sink: &mut Sink, w: &mut World, focus: &str) {
         w.track(&out, PendK::Issue);
         let its = w.its.clone();
         sink.exec(&format!("bal {} EGLD", hex::encode(&its)));
+        return;
+    }
+    if focus == "C18" && rng.chance(1, 40) {
+        factory_flow_changed_supply(rng, sink, w);
         return;
     }
     if focus == "C13" && rng.chance(1, 10) {
